@@ -41,6 +41,10 @@ var (
 
 func (t typ) coq() string {
 	switch t.kind {
+	case "mat":
+		return "(list (list N))"
+	case "err":
+		return "bool"
 	case "u":
 		return "N"
 	case "s":
@@ -54,6 +58,7 @@ func (t typ) coq() string {
 var named = map[string]typ{
 	"int": tInt, "uint": {"u", 64}, "uint8": {"u", 8}, "byte": {"u", 8}, "uint16": {"u", 16}, "uint32": {"u", 32},
 	"uint64": {"u", 64}, "bool": tBool, "T": {"u", 16}, "Poly64": {"u", 64},
+	"Matrix": {"mat", 0}, "error": {"err", 0}, // a Matrix is its list of rows; an error is true when non-nil
 }
 
 type array struct {
@@ -73,22 +78,26 @@ var arrays = map[string]array{
 type target struct {
 	file, recv, name, coq string
 	fuel                  int
+	fuelExpr              string   // a Gallina nat expression over the parameters, used instead of fuel when set
+	inout                 []string // variables mutated through a shared slice: their final values are returned too
+	usesMul               bool     // the row operations multiply in the field: `mul` becomes a parameter
 }
 
 var targets = []target{
-	{"gf2/poly64.go", "Poly64", "Plus", "gen_Poly64_Plus", 0},
-	{"gf2/poly64.go", "Poly64", "Minus", "gen_Poly64_Minus", 0},
-	{"gf2/poly64.go", "Poly64", "Times", "gen_Poly64_Times", 70},
-	{"gf2/poly64.go", "", "ilog2", "gen_ilog2", 70},
-	{"gf2/poly64.go", "Poly64", "Div", "gen_Poly64_Div", 70},
-	{"gf2p16/t.go", "T", "Plus", "gen_T_Plus", 0},
-	{"gf2p16/t.go", "T", "Minus", "gen_T_Minus", 0},
-	{"gf2p16/t.go", "T", "Times", "gen_T_Times", 0},
-	{"gf2p16/t.go", "T", "Inverse", "gen_T_Inverse", 0},
-	{"gf2p16/t.go", "T", "Div", "gen_T_Div", 0},
-	{"gf2p16/t.go", "T", "Pow", "gen_T_Pow", 0},
-	{"rsec16/matrix.go", "", "calculateParallelParams", "gen_calculateParallelParams", 0},
-	{"par2/crc32.go", "crc32Window", "update", "gen_crc32Window_update", 0},
+	{"gf2/poly64.go", "Poly64", "Plus", "gen_Poly64_Plus", 0, "", nil, false},
+	{"gf2/poly64.go", "Poly64", "Minus", "gen_Poly64_Minus", 0, "", nil, false},
+	{"gf2/poly64.go", "Poly64", "Times", "gen_Poly64_Times", 70, "", nil, false},
+	{"gf2/poly64.go", "", "ilog2", "gen_ilog2", 70, "", nil, false},
+	{"gf2/poly64.go", "Poly64", "Div", "gen_Poly64_Div", 70, "", nil, false},
+	{"gf2p16/t.go", "T", "Plus", "gen_T_Plus", 0, "", nil, false},
+	{"gf2p16/t.go", "T", "Minus", "gen_T_Minus", 0, "", nil, false},
+	{"gf2p16/t.go", "T", "Times", "gen_T_Times", 0, "", nil, false},
+	{"gf2p16/t.go", "T", "Inverse", "gen_T_Inverse", 0, "", nil, false},
+	{"gf2p16/t.go", "T", "Div", "gen_T_Div", 0, "", nil, false},
+	{"gf2p16/t.go", "T", "Pow", "gen_T_Pow", 0, "", nil, false},
+	{"rsec16/matrix.go", "", "calculateParallelParams", "gen_calculateParallelParams", 0, "", nil, false},
+	{"par2/crc32.go", "crc32Window", "update", "gen_crc32Window_update", 0, "", nil, false},
+	{"gf2p16/matrix.go", "Matrix", "rowReduceForInverse", "gen_rowReduceForInverse", 0, "(S (length m))", []string{"m", "n"}, true},
 }
 
 // byte-array variables initialised by a composite literal of character constants: file, variable, array length
@@ -297,6 +306,9 @@ func (c *fn) expr(e ast.Expr, want typ, ec *ectx) (string, typ) {
 		if x.Name == "true" || x.Name == "false" {
 			return x.Name, tBool
 		}
+		if x.Name == "nil" && want.kind == "err" {
+			return "false", want
+		}
 		t, ok := c.vtypes[x.Name]
 		if !ok {
 			fail(e, c.fset, "unknown identifier %s", x.Name)
@@ -333,11 +345,27 @@ func (c *fn) expr(e ast.Expr, want typ, ec *ectx) (string, typ) {
 			}
 			return conv(a, ta, t), t
 		}
+		if sel, ok := x.Fun.(*ast.SelectorExpr); ok {
+			if id, ok := sel.X.(*ast.Ident); ok && c.vtypes[id.Name].kind == "mat" && sel.Sel.Name == "At" && len(x.Args) == 2 {
+				// m.At(i, j): both indices are range-checked by the Go code
+				i := c.matIndex(id.Name, x.Args[0], true, ec)
+				j := c.matIndex(id.Name, x.Args[1], false, ec)
+				return fmt.Sprintf("(Matrix.ent %s %s %s)", id.Name, i, j), typ{"u", 16}
+			}
+			if id, ok := sel.X.(*ast.Ident); ok && id.Name == "errors" && sel.Sel.Name == "New" {
+				return "true", typ{"err", 0}
+			}
+		}
 		vals, ts := c.call(x, ec)
 		if len(ts) != 1 {
 			fail(e, c.fset, "call with %d results in expression position", len(ts))
 		}
 		return vals[0], ts[0]
+	case *ast.SelectorExpr:
+		if id, ok := x.X.(*ast.Ident); ok && c.vtypes[id.Name].kind == "mat" && x.Sel.Name == "rows" {
+			return fmt.Sprintf("(Z.of_nat (length %s))", id.Name), tInt
+		}
+		fail(e, c.fset, "unsupported selector %s", exprKey(e))
 	case *ast.IndexExpr:
 		key := exprKey(x.X)
 		arr, ok := arrays[key]
@@ -632,6 +660,7 @@ func (c *fn) declare(name string, t typ, n ast.Node) {
 }
 
 func (c *fn) retTerm(vals []string) string {
+	vals = append(append([]string{}, vals...), c.cur.t.inout...)
 	if len(vals) == 0 {
 		return "Ret tt"
 	}
@@ -714,6 +743,13 @@ func (c *fn) block(stmts []ast.Stmt, rest func() string) string {
 				return "Pnc"
 			}
 		}
+		if call, ok := x.X.(*ast.CallExpr); ok {
+			if sel, ok := call.Fun.(*ast.SelectorExpr); ok {
+				if id, ok := sel.X.(*ast.Ident); ok && c.vtypes[id.Name].kind == "mat" {
+					return c.matStmt(id.Name, sel.Sel.Name, call, next)
+				}
+			}
+		}
 		fail(s, c.fset, "unsupported expression statement")
 	case *ast.ReturnStmt:
 		ec := &ectx{}
@@ -789,8 +825,10 @@ func (c *fn) block(stmts []ast.Stmt, rest func() string) string {
 		if x.Init != nil {
 			initS = []ast.Stmt{x.Init}
 		}
-		fuel := c.cur.t.fuel
-		if fuel == 0 {
+		fuel := fmt.Sprintf("(N.to_nat %d)", c.cur.t.fuel)
+		if c.cur.t.fuelExpr != "" {
+			fuel = c.cur.t.fuelExpr
+		} else if c.cur.t.fuel == 0 {
 			fail(s, c.fset, "loop in a function for which no fuel is configured")
 		}
 		body := func() string {
@@ -813,7 +851,7 @@ func (c *fn) block(stmts []ast.Stmt, rest func() string) string {
 		loopS := func() string {
 			b := body()
 			b = body() // second pass: all variables known
-			return fmt.Sprintf("seq (loop (N.to_nat %d) (fun %s =>\n%s) %s) (fun %s =>\n%s)", fuel, c.pat(), b, c.tuple(), c.pat(), next())
+			return fmt.Sprintf("seq (loop %s (fun %s =>\n%s) %s) (fun %s =>\n%s)", fuel, c.pat(), b, c.tuple(), c.pat(), next())
 		}
 		if len(initS) > 0 {
 			return pre + c.block(initS, loopS)
@@ -955,7 +993,7 @@ func main() {
 	}
 	var out strings.Builder
 	out.WriteString("(* GENERATED by tools/gotocoq from the Go sources - do not edit *)\n")
-	out.WriteString("From Coq Require Import NArith ZArith Bool List.\nImport ListNotations.\nFrom Gopar Require Import Model.GoSem.\nOpen Scope N_scope.\n\n")
+	out.WriteString("From Coq Require Import NArith ZArith Bool List.\nImport ListNotations.\nFrom Gopar Require Import Model.Base Model.GoSem Model.Matrix.\nOpen Scope N_scope.\n\n")
 	// constants
 	pkgConsts := map[string]map[string]int64{}
 	for _, cf := range constFiles {
@@ -1172,6 +1210,9 @@ func translateOne(t target, decls map[string]*ast.FuncDecl, sigs map[string]*sig
 		sort.Strings(arrs)
 		s.arrays = arrs
 		var ps []string
+		if t.usesMul {
+			ps = append(ps, "(mul : N -> N -> N)")
+		}
 		for _, a := range arrs {
 			ps = append(ps, fmt.Sprintf("(%s : N -> N)", a))
 		}
@@ -1183,7 +1224,7 @@ func translateOne(t target, decls map[string]*ast.FuncDecl, sigs map[string]*sig
 			vts = append(vts, c.vtypes[v])
 		}
 		fmt.Fprintf(out, "(* %s: func %s%s *)\nDefinition %s %s : ctl %s %s :=\n%s%s.\n\n", t.file, map[bool]string{true: "(" + t.recv + ") ", false: ""}[t.recv != ""], t.name,
-			t.coq, strings.Join(ps, " "), prodType(vts), prodType(s.results), pre, body)
+			t.coq, strings.Join(ps, " "), prodType(vts), prodType(resWithInout(s.results, t.inout, c.vtypes)), pre, body)
 	}
 }
 
@@ -1192,4 +1233,70 @@ func stripStar(e ast.Expr) ast.Expr {
 		return s.X
 	}
 	return e
+}
+
+// matIndex translates a row (or column) index of matrix m to a nat term, with the range check of the Go code
+func (c *fn) matIndex(m string, e ast.Expr, row bool, ec *ectx) string {
+	t, tt := c.expr(e, tInt, ec)
+	if tt.kind == "untyped" {
+		v, _ := evalConst(e, c.consts)
+		t, tt = lit(v, tInt), tInt
+	}
+	if tt.kind != "s" {
+		fail(e, c.fset, "matrix index that is not an int")
+	}
+	bound := fmt.Sprintf("(Z.of_nat (length %s))", m)
+	if !row {
+		bound = fmt.Sprintf("(Z.of_nat (length (List.hd nil %s)))", m) // m.columns: all rows have this length
+	}
+	ec.binds = append(ec.binds, fmt.Sprintf("guard (orb (Z.ltb %s (0)%%Z) (Z.leb %s %s)) (", t, bound, t))
+	return fmt.Sprintf("(Z.to_nat %s)", t)
+}
+
+// matStmt translates the three mutating row operations of gf2p16/matrix.go; their bodies (element loops through the
+// bulk kernels) are not re-read: they are Model/Matrix.v's swap_rows / scale_row / add_scaled_row over `mul`
+func (c *fn) matStmt(m, method string, call *ast.CallExpr, next func() string) string {
+	ec := &ectx{}
+	var term string
+	switch method {
+	case "swapRows":
+		if len(call.Args) != 2 {
+			fail(call, c.fset, "swapRows arity")
+		}
+		i := c.matIndex(m, call.Args[0], true, ec)
+		j := c.matIndex(m, call.Args[1], true, ec)
+		term = fmt.Sprintf("(Matrix.swap_rows %s %s %s)", i, j, m)
+	case "scaleRow":
+		if len(call.Args) != 2 {
+			fail(call, c.fset, "scaleRow arity")
+		}
+		i := c.matIndex(m, call.Args[0], true, ec)
+		cv, ct := c.expr(call.Args[1], typ{"u", 16}, ec)
+		if ct != (typ{"u", 16}) {
+			fail(call, c.fset, "scaleRow factor type")
+		}
+		term = fmt.Sprintf("(Matrix.scale_row mul %s %s %s)", i, cv, m)
+	case "addScaledRow":
+		if len(call.Args) != 3 {
+			fail(call, c.fset, "addScaledRow arity")
+		}
+		d := c.matIndex(m, call.Args[0], true, ec)
+		sr := c.matIndex(m, call.Args[1], true, ec)
+		cv, ct := c.expr(call.Args[2], typ{"u", 16}, ec)
+		if ct != (typ{"u", 16}) {
+			fail(call, c.fset, "addScaledRow factor type")
+		}
+		term = fmt.Sprintf("(Matrix.add_scaled_row mul %s %s %s %s)", d, sr, cv, m)
+	default:
+		fail(call, c.fset, "unsupported matrix method %s", method)
+	}
+	return wrapBinds(ec, fmt.Sprintf("let %s := %s in\n", m, term)+next())
+}
+
+func resWithInout(res []typ, inout []string, vt map[string]typ) []typ {
+	out := append([]typ{}, res...)
+	for _, v := range inout {
+		out = append(out, vt[v])
+	}
+	return out
 }
